@@ -3,6 +3,7 @@ import Driver.DiamIO
 import Driver.ChargingIO
 import Driver.ConvIO
 import Driver.DiamPrimIO
+import Driver.ConfigIO
 /-
   Line-protocol driver: one operation per input line, one canonical line per operation.
   The first token selects the stream (model); stateful streams keep their state in `DState`.
@@ -22,6 +23,7 @@ def step (s : DState) (line : String) : DState × String :=
   | "rf" :: t => let (a, o) := rfOp s.rf t; ({ s with rf := a }, o)
   | "chf" :: t => let (a, o) := chfOp noSplit s.chf t; ({ s with chf := a }, o)
   | "conv" :: t => (s, convOp t)
+  | "config" :: t => (s, configOp t)
   | "diam" :: t => (s, diamOp t)
   | "abmfjudge" :: t => (s, abmfJudge t)
   | "rfjudge" :: t => (s, rfJudge t)
